@@ -563,6 +563,73 @@ async fn wait_for_first_slot(
     }
 }
 
+/// Verification hook: public handle on a [`BlockProducer`].
+///
+/// Only forwards to the crate-private constructor and methods, no logic of its own.
+#[cfg(feature = "verif-hooks")]
+pub struct VerifBlockProducer<D: Disseminator, T: Network>(BlockProducer<D, T>);
+
+#[cfg(feature = "verif-hooks")]
+impl<D, T> VerifBlockProducer<D, T>
+where
+    D: Disseminator,
+    T: TransactionNetwork,
+{
+    /// Verification hook: see `BlockProducer::new`.
+    #[expect(clippy::too_many_arguments)]
+    pub fn new(
+        secret_key: signature::SecretKey,
+        epoch_info: Arc<ValidatorEpochInfo>,
+        disseminator: Arc<D>,
+        txs_receiver: T,
+        blockstore: SharedBlockstore,
+        pool: SharedPool,
+        cancel_token: CancellationToken,
+        delta_block: Duration,
+        delta_first_slice: Duration,
+    ) -> Self {
+        Self(BlockProducer::new(
+            secret_key,
+            epoch_info,
+            disseminator,
+            txs_receiver,
+            blockstore,
+            pool,
+            cancel_token,
+            delta_block,
+            delta_first_slice,
+        ))
+    }
+
+    /// Verification hook: see `BlockProducer::block_production_loop`.
+    pub async fn block_production_loop(&self) -> Result<()> {
+        self.0.block_production_loop().await
+    }
+
+    /// Verification hook: see `BlockProducer::produce_block_parent_ready`.
+    pub async fn produce_block_parent_ready(
+        &self,
+        slot: Slot,
+        parent_block_id: BlockId,
+    ) -> Result<BlockId> {
+        self.0
+            .produce_block_parent_ready(slot, parent_block_id)
+            .await
+    }
+
+    /// Verification hook: see `BlockProducer::produce_block_parent_not_ready`.
+    pub async fn produce_block_parent_not_ready(
+        &self,
+        slot: Slot,
+        parent_block_id: BlockId,
+        parent_ready_receiver: oneshot::Receiver<BlockId>,
+    ) -> Result<BlockId> {
+        self.0
+            .produce_block_parent_not_ready(slot, parent_block_id, parent_ready_receiver)
+            .await
+    }
+}
+
 #[cfg(test)]
 mod tests {
     use std::time::Duration;
